@@ -2,6 +2,8 @@
 import struct
 from io import BytesIO
 
+import os
+
 from simkit.core import Streams, Result, Trace
 from seams import env
 from checks import ledger_common as LC
@@ -45,7 +47,7 @@ def generate(seed, tier):
             x = rng.random()
             if x < 0.08:
                 ops.append({'op': 'built_in_memory', 'n': rng.randrange(1000), 'edit': rng.choice(['output_value', 'append_output', 'signature', 'drop_input', 'wallet_signs_decoded',
-                                                                                            'wallet_signs_decoded', 'after_failed_id', 'after_failed_id'])})
+                                                                                            'wallet_signs_decoded', 'after_failed_id', 'after_failed_id', 'store_roundtrip', 'store_roundtrip'])})
             elif x < 0.45:
                 ops.append({'op': 'rewrite', 'type': rng.choice(['block', 'block', 'header', 'summary', 'tx', 'tx', 'input',
                                                                  'output', 'outref', 'evidence', 'sig', 'pubkey', 'coinbasedata',
@@ -171,6 +173,65 @@ def run_codec(script, res, trace):
                     res.violate(PROP, 'C07/id-is-not-hash-of-canonical-encoding',
                                 'a transaction decoded unsigned and then signed by the wallet reports id %s; its signed encoding hashes to %s' % (
                                     signed.hash().hex()[:16], sha256d(signed.serialize()).hex()[:16]))
+                    break
+                continue
+            if e == 'store_roundtrip':
+                # "obtained from the store": a decodable block with unusual but encodable field values goes through the real block
+                # store (written, store reopened, read back); its id and its transactions' ids are the hashes of what it encodes to
+                import skepticoin.blockstore as bs_
+                from skepticoin.signing import CoinbaseData as _CD
+                a_ = op.get('n', 0)
+                gtx_ = Block.deserialize(__import__('skepticoin.genesis', fromlist=['x']).genesis_block_data).transactions[0].hash()
+                # (the store's schema ties a reference to a stored output unless its hash is all zeros: only such references can be written)
+                odd_inputs = [
+                    Input(OutputReference(b'\x00' * 32, 1 + a_ % 5), SignableEquivalent()),      # all-zero hash with a non-zero index
+                    Input(OutputReference(b'\x00' * 32, 0xffffffff), t0.inputs[0].signature),
+                    Input(OutputReference(b'\x00' * 32, 2 + a_ % 250), _CD(9, b'')),
+                    Input(OutputReference(b'\x00' * 32, 0), _CD(7, b'second reward-shaped input')),
+                ]
+                extra = Transaction([odd_inputs[a_ % len(odd_inputs)]], list(t0.outputs) + [Output(0, W.key(1).pk)])
+                s0 = b0.header.summary
+                txs_ = [b0.transactions[0], extra]
+                gen_ = Block.deserialize(__import__('skepticoin.genesis', fromlist=['x']).genesis_block_data)
+                odd = Block(BlockHeader(BlockSummary(1, gen_.hash(), s0.merkle_root_hash, s0.timestamp, s0.target, s0.nonce), b0.header.pow_evidence), txs_)
+                odd = Block.deserialize(odd.serialize())
+                path_ = os.path.join(env.scratch_dir(), 'c07-%d.db' % os.getpid())
+                for sfx in ('', '-journal'):
+                    try:
+                        os.remove(path_ + sfx)
+                    except OSError:
+                        pass
+                st_ = bs_.BlockStore(path_)
+                try:
+                    st_.write_blocks_to_disk([odd])
+                    st_.close()
+                    st_ = bs_.BlockStore(path_)
+                    back = [b_ for b_ in st_.read_blocks_from_disk() if b_.header.summary.height == 1]
+                finally:
+                    try:
+                        st_.close()
+                    except Exception:
+                        pass
+                    for sfx in ('', '-journal'):
+                        try:
+                            os.remove(path_ + sfx)
+                        except OSError:
+                            pass
+                res.bump('store_roundtrips')
+                res.distinct.add('memory:store_roundtrip:%d' % (a_ % len(odd_inputs)))
+                if len(back) != 1:
+                    res.violate(PROP, 'C07/stored-object-not-read-back', 'a decodable block written to the store is read back %d times' % len(back))
+                    break
+                rb_ = back[0]
+                bad = None
+                if rb_.hash() != sha256d(rb_.header.serialize()) or rb_.hash() != odd.hash():
+                    bad = 'block'
+                for t_ in rb_.transactions:
+                    if t_.hash() != sha256d(t_.serialize()):
+                        bad = 'transaction'
+                if bad:
+                    res.violate(PROP, 'C07/id-is-not-hash-of-canonical-encoding',
+                                'a %s read back from the block store reports an id that is not the double SHA-256 of what it now encodes to' % bad)
                     break
                 continue
             if e == 'after_failed_id':
